@@ -451,3 +451,23 @@ def wmi_of(T):
     if T.wmi_file is not None:
         return T.wmi_file
     return np.linalg.inv(T.wm)
+
+
+def kept_chunk_intervals(chunk_bounds, n_kept=20):
+    """Chunk intervals kept by the spike-subset export: regular stride starting with the first."""
+    from math import ceil
+    b = [int(x) for x in chunk_bounds]
+    n = len(b) - 1
+    stride = max(1, int(ceil(n / n_kept)))
+    return [(b[i], b[i + 1]) for i in range(0, n, stride)]
+
+
+def store_selection_size(T, m, max_per_template):
+    """Number of spikes the subset export will select (independent of the random draw)."""
+    iv = kept_chunk_intervals(m.traces.chunk_bounds)
+    total = 0
+    for t in sorted(set(int(x) for x in T.spike_templates)):
+        elig = [i for i in range(len(T.samples)) if int(T.spike_templates[i]) == t and
+                any(a <= int(T.samples[i]) < b for a, b in iv)]
+        total += min(len(elig), max_per_template)
+    return total
